@@ -44,6 +44,14 @@ func c12Gen(seed uint64, run int, tier string) *Case {
 		c.Cfg["nfiles"] = int64(r.Pick(0, 1, 2, 5, 9, 30))
 		return c
 	}
+	if run%20 == 7 {
+		// an implementation with authentication: reads of the authentication fid carry no more than was asked for
+		c.Stratum = "auth-read-count"
+		c.Cfg["authread"] = 1
+		c.Cfg["cmsize"] = int64(r.Pick(256, 1024, 8192))
+		c.Cfg["dotu"] = int64(r.Intn(2))
+		return c
+	}
 	if run%20 == 15 {
 		// a file server that answers Tstat from one long-lived Dir per file (the library's Fsrv does), and two
 		// connections that negotiated different dialects: each gets its stat in its own
@@ -200,6 +208,53 @@ func c12UfsRead(x *Ctx) {
 	}
 }
 
+func c12AuthRead(x *Ctx) {
+	c := x.C
+	fs := NewScriptFS(x)
+	fs.PlanFor = func(inv *Inv) *Plan { return &Plan{NWqid: -1, NData: -1, QType: 0x80} }
+	sys := NewSrvSys(x, fs.OpsValue(true, false), fs, 8192, true, 2, 0)
+	sc := sys.AddConn(0, int(c.cfg("seg")))
+	p := sc.Peer
+	r := NewRand(c.Seed ^ 0xA07)
+	done := false
+	rt.Go(rt.SiteSpawn, func() {
+		rt.SetName("client")
+		ver := []string{"9P2000", "9P2000.u"}[int(c.cfg("dotu"))%2]
+		vr := p.Call(&Msg{Type: Tversion, Tag: NOTAG, Msize: uint32(c.cfg("cmsize")), Version: ver})
+		if vr == nil || vr.M == nil || vr.M.Type != Rversion {
+			x.Violate("m1-version", "Tversion answered %v", vr)
+			return
+		}
+		nm := vr.M.Msize
+		if ar := p.Call(&Msg{Type: Tauth, Tag: 1, Afid: 5, Uname: "u1", Nuname: 1}); ar == nil || ar.M == nil || ar.M.Type != Rauth {
+			x.Violate("setup", "Tauth answered %v", ar)
+			return
+		}
+		for k := 0; k < 10; k++ {
+			cnt := uint32(r.Pick(0, 1, 8, 100, 141, int(nm)-25, int(nm)-24))
+			rr := p.Call(&Msg{Type: Tread, Tag: uint16(10 + k), Fid: 5, Offset: uint64(r.Intn(300)), Count: cnt})
+			if rr == nil || rr.M == nil {
+				x.Violate("m0-stalled", "Tread on the authentication fid got no reply")
+				return
+			}
+			if uint32(len(rr.Raw)) > nm {
+				x.Violate("m2-oversize-reply", "after negotiating msize %d the server sent a %d-byte %s", nm, len(rr.Raw), TypeName(rr.Raw[4]))
+			}
+			if rr.M.Type == Rread && uint32(len(rr.M.Data)) > cnt {
+				x.Violate("m4-more-than-asked", "Tread on the authentication fid asking for %d bytes was answered with %d bytes", cnt, len(rr.M.Data))
+			}
+		}
+		x.Probe("auth-fid-read")
+		done = true
+	})
+	if !x.Run() {
+		return
+	}
+	if !done && len(x.Res.Viol) == 0 {
+		x.Violate("m0-stalled", "the session did not finish")
+	}
+}
+
 func c12KeptDir(x *Ctx) {
 	c := x.C
 	fs := NewScriptFS(x)
@@ -254,6 +309,10 @@ func c12KeptDir(x *Ctx) {
 func c12Exec(x *Ctx) {
 	if x.C.cfg("keptdir") != 0 {
 		c12KeptDir(x)
+		return
+	}
+	if x.C.cfg("authread") != 0 {
+		c12AuthRead(x)
 		return
 	}
 	if x.C.cfg("ufsread") != 0 {
